@@ -293,6 +293,19 @@ package main
 //@   requires i != nil && i.ctx != nil && w != nil && r != nil
 //@   ensures {exactly-one-response-action} calls(WriteHeader) + calls(Write) == 1
 //
+// The AMP endpoint (C11, C14): the poll decoded from the URL path is handed to the same IPC method, with the same
+// (empty) remote address, as the POST endpoint does; what is armored is exactly the response that method produced;
+// exactly one status line on every path.
+//@ ghost var ampDecoded ref
+//@ func ampClientOffers(i *IPC, w http.ResponseWriter, r *http.Request)
+//@   props C11, C14
+//@   requires i != nil && i.ctx != nil && w != nil && r != nil && r.URL != nil
+//@   after call DecodePath ghost ampDecoded = base(ret0)
+//@   at call ClientOffers assert {same-ipc-call-as-the-post-endpoint} base(arg1.Body) == ampDecoded && arg1.RemoteAddr == "" && arg2 == &response
+//@   at call NewArmorEncoder assert {armor-only-after-200} calls(WriteHeader) == 1 && arg0 == w
+//@   at call Write assert {armors-exactly-the-response} base(arg0) == base(response) && len(arg0) == len(response)
+//@   ensures {exactly-one-status-line} calls(WriteHeader) == 1
+//
 // ---- lock discipline (C20) ----
 //@ guarded BrokerContext.idToSnowflake by snowflakeLock
 //@ guarded Metrics.countryStats by lock
